@@ -17,29 +17,27 @@ func ConvertTensorDtype(t tensor.Tensor, newType int32) (tensor.Tensor, error) {
 		newBacking any
 	)
 
-	backing := IfScalarToSlice(t.Data())
-
 	switch t.Dtype() {
 	case tensor.Float32:
-		newBacking, err = convertBacking(backing.([]float32), newType)
+		newBacking, err = convertData[float32](t.Data(), newType)
 	case tensor.Float64:
-		newBacking, err = convertBacking(backing.([]float64), newType)
+		newBacking, err = convertData[float64](t.Data(), newType)
 	case tensor.Int8:
-		newBacking, err = convertBacking(backing.([]int8), newType)
+		newBacking, err = convertData[int8](t.Data(), newType)
 	case tensor.Int16:
-		newBacking, err = convertBacking(backing.([]int16), newType)
+		newBacking, err = convertData[int16](t.Data(), newType)
 	case tensor.Int32:
-		newBacking, err = convertBacking(backing.([]int32), newType)
+		newBacking, err = convertData[int32](t.Data(), newType)
 	case tensor.Int64:
-		newBacking, err = convertBacking(backing.([]int64), newType)
+		newBacking, err = convertData[int64](t.Data(), newType)
 	case tensor.Uint8:
-		newBacking, err = convertBacking(backing.([]uint8), newType)
+		newBacking, err = convertData[uint8](t.Data(), newType)
 	case tensor.Uint16:
-		newBacking, err = convertBacking(backing.([]uint16), newType)
+		newBacking, err = convertData[uint16](t.Data(), newType)
 	case tensor.Uint32:
-		newBacking, err = convertBacking(backing.([]uint32), newType)
+		newBacking, err = convertData[uint32](t.Data(), newType)
 	case tensor.Uint64:
-		newBacking, err = convertBacking(backing.([]uint64), newType)
+		newBacking, err = convertData[uint64](t.Data(), newType)
 	default:
 		return nil, ErrConversionInvalidType(t.Dtype(), newType)
 	}
@@ -49,6 +47,19 @@ func ConvertTensorDtype(t tensor.Tensor, newType int32) (tensor.Tensor, error) {
 	}
 
 	return tensor.New(tensor.WithShape(t.Shape()...), tensor.WithBacking(newBacking)), nil
+}
+
+// convertData converts the data of a tensor, which is a slice or, for a tensor of
+// rank 0, a single value.
+func convertData[B Number](data any, dataType int32) (any, error) {
+	switch backing := data.(type) {
+	case []B:
+		return convertBacking(backing, dataType)
+	case B:
+		return convertBacking([]B{backing}, dataType)
+	default:
+		return nil, ErrTypeAssert("numeric list", data)
+	}
 }
 
 func convertBacking[B Number](backing []B, dataType int32) (any, error) {
